@@ -1,9 +1,9 @@
 (* C20, command lines of any length: the model of getopt + Adjustments.parse_args
    + runner.run (Model/Adjust.v cli_construct) meets the specification
-   Proof/AdjustCliSpec.v cli_spec on EVERY argv.  Part 1: getopt = scan. *)
+   Spec/AdjustCli.v cli_spec on EVERY argv.  Part 1: getopt = scan. *)
 From Coq Require Import List NArith ZArith Bool Lia.
 From WV Require Import Lib.PyBytes Gen.GenAdjust Model.Adjust Proof.AdjustSpec Proof.AdjustChecks
-  Proof.AdjustLists Proof.AdjustCli Proof.AdjustCliSpec.
+  Proof.AdjustLists Proof.AdjustCli Spec.AdjustCli.
 Import ListNotations.
 Local Open Scope N_scope.
 
